@@ -1027,7 +1027,8 @@ class PGPMessage(Armorable, PGPObject):
             ##TODO: is it worth coming up with a way of disabling one-pass signing?
             for sig in reversed(self._signatures):
                 ops = sig.make_onepass()
-                if sig is not self._signatures[-1]:
+                # the flag octet is 1 only in the last one-pass packet: 0 announces that another one follows
+                if sig is self._signatures[0]:
                     ops.nested = True
                 yield ops
 
